@@ -37,7 +37,9 @@ def main():
             "level_note": m.get("level_note") or ("Trusted: Lean kernel + axioms propext/Classical.choice/Quot.sound; the hand-written model is tied "
                                                  "to the code only by the correspondence run (differential testing on generated cases); "
                                                  + "; ".join(m.get("trusted_base", []))),
-            "technique": m.get("technique", "Lean 4 proof about a hand-written executable model + model/implementation correspondence check"),
+            "technique": m.get("technique", "Lean 4 proof about a hand-written executable model + model/implementation correspondence check")
+                         + (" + code translator (definitions regenerated from the Python source on every run, proved equal to the model)"
+                            if glob.glob(os.path.join(core.LEAN, "theorems", "extra", pid + "-code*.json")) and "translator" not in m.get("technique", "") else ""),
         })
     na = [{"property_id": p, "reason": PENDING_REASON} for p in ALL if p not in claimed]
     extra_na = os.path.join(core.VERIF, "not_applicable.json")
